@@ -75,6 +75,19 @@ pub proof fn lemma_sum_len_mono(t: &TokTrie, toks: Seq<u32>, k: int, m: int)
     }
 }
 
+/// the bytes of `format!("[{tok}]")` (ASSUMED std: '[' + decimal digits + ']', ndigits(tok) + 2 bytes)
+pub uninterp spec fn spec_bracket(t: u32) -> Seq<u8>;
+pub proof fn axiom_bracket_len(t: u32)
+    ensures spec_bracket(t).len() == ndigits(t as nat) + 2,
+{
+    admit(); // ASSUMED: std formatting of a u32 in decimal
+}
+/// R27: `res.extend_from_slice(format!("[{tok}]").as_bytes());`
+#[verifier::external_body]
+pub fn extend_bracket(res: &mut Vec<u8>, tok: u32)
+    ensures final(res)@ == old(res)@ + spec_bracket(tok),
+{ unimplemented!() }
+
 impl TokTrie {
     pub const SPECIAL_TOKEN_MARKER: u8 = 0xff;
 
@@ -132,13 +145,56 @@ impl TokTrie {
     proof { lemma_ndigits_bound(idx as nat); lemma_ndigits_bound((idx / 10) as nat); }
 //@ end
 
-    /// ASSUMED (format!("[{tok}]") has ndigits(tok) + 2 characters; the loop concatenates): only the length is used
-    #[verifier::external_body]
-    pub fn decode_raw(&self, tokens: &[TokenId]) -> (r: Vec<u8>)
+    /// what one token contributes to decode_raw: its own bytes, or the marker followed by the "[id]" spelling for special / empty tokens
+    pub open spec fn spec_tok_bytes(&self, t: u32) -> Seq<u8> {
+        let b = self.spec_token(t);
+        if b.len() == 0 || b[0] == 0xff { seq![0xffu8] + spec_bracket(t) } else { b }
+    }
+    pub open spec fn spec_decode_raw(&self, toks: Seq<u32>) -> Seq<u8>
+        decreases toks.len()
+    {
+        if toks.len() == 0 { Seq::empty() } else { self.spec_decode_raw(toks.drop_last()) + self.spec_tok_bytes(toks.last()) }
+    }
+    pub proof fn lemma_decode_raw_len(&self, toks: Seq<u32>)
         requires self.inv(),
-        ensures r@.len() == sum_len(self, tokens@),
-    { unimplemented!() }
-//@@ sigcheck toktrie/src/toktree.rs TokTrie::decode_raw :: pub fn decode_raw(&self, tokens: &[TokenId]) -> Vec<u8>
+        ensures self.spec_decode_raw(toks).len() == sum_len(self, toks),
+        decreases toks.len()
+    {
+        if toks.len() > 0 {
+            self.lemma_decode_raw_len(toks.drop_last());
+            axiom_bracket_len(toks.last());
+        }
+    }
+
+//@@ fn toktrie/src/toktree.rs TokTrie::decode_as_special
+//@ ret r
+//@ rewrite R27 :: res.extend_from_slice(format!("[{tok}]").as_bytes()); ==> extend_bracket(&mut res, tok);
+//@ spec
+    ensures r@ == seq![0xffu8] + spec_bracket(tok), r@.len() == ndigits(tok as nat) + 3,
+//@ after extend_bracket(&mut res, tok);
+    proof { axiom_bracket_len(tok); }
+//@ end
+
+//@@ fn toktrie/src/toktree.rs TokTrie::decode_raw
+//@ ret r
+//@ rewrite R7 :: for &tok in tokens { ==> for verif_i in 0..tokens.len() { let tok = tokens[verif_i];
+//@ rewrite R27 :: res.extend_from_slice(format!("[{tok}]").as_bytes()); ==> extend_bracket(&mut res, tok);
+//@ spec
+    requires self.inv(), tokens@.len() * 6 + 32 <= usize::MAX,
+    ensures r@ == self.spec_decode_raw(tokens@), r@.len() == sum_len(self, tokens@),
+//@ loop 1
+    invariant self.inv(), res@ == self.spec_decode_raw(tokens@.take(verif_i as int)),
+        self.spec_decode_raw(tokens@).len() == sum_len(self, tokens@),
+        verif_i == tokens@.len() ==> res@ == self.spec_decode_raw(tokens@),
+//@ before for verif_i in 0..tokens.len()
+    proof { self.lemma_decode_raw_len(tokens@); }
+//@ after let t = self.token(tok);
+    proof {
+        assert(tokens@.take(verif_i + 1).drop_last() =~= tokens@.take(verif_i as int));
+        assert(tokens@.take(verif_i + 1).last() == tok);
+        assert(tokens@.take(tokens@.len() as int) =~= tokens@);
+    }
+//@ end
 
     /// contract proved in unit walk_v; here only its shape matters
     #[verifier::external_body]
@@ -199,6 +255,19 @@ impl TokTrie {
         }
     }
 //@ end
+}
+
+// vacuity guards (must FAIL)
+pub fn must_fail_decode_raw_empty(t: &TokTrie, toks: Vec<u32>)
+    requires t.inv(), toks@.len() == 2,
+{
+    let r = t.decode_raw(toks.as_slice());
+    assert(r@.len() == 0);
+}
+pub proof fn must_fail_inv_contradictory(t: &TokTrie)
+    requires t.inv(), t.token_offsets@.len() > 3,
+{
+    assert(false);
 }
 
 pub fn verif_unreachable()
